@@ -99,6 +99,11 @@ let action_tok = function
   | ARows rows -> "W:" ^ hex_of_n rows
   | AReject -> "X"
 
+let seg_chunk_of (s : Stdlib.String.t) : seg_chunk =
+  match String.split_on_char '.' s with
+  | [e; d; v] -> { sg_exact = bool_of_tok e; sg_declared = n_of_hex d; sg_delivered = n_of_hex v }
+  | _ -> failwith ("chunk " ^ s)
+
 let nats_of s = List.map (fun t -> nat_of_int (int_of_string t)) (split_on ',' s)
 let tok_of_nats l = tok_of_list (fun n -> string_of_int (int_of_nat n)) l
 
@@ -120,6 +125,23 @@ let () =
          | Some l -> tok_of_list hex_of_n l
          | None -> "INEXACT")
     | _ -> failwith "c11.groups args");
+  (* lengths of the batches writeSegmentsPacked makes of the segments of the top-level row group
+     ("_" when the call does not take the segment branch) *)
+  register "c11.packs" (function
+    | [sw; w; t] ->
+        let wr = writer_of w and r = tree_of t in
+        (match decide (switches_of sw) wr r, segments_of r with
+         | PPacked, Some segs -> tok_of_list (fun b -> string_of_int (List.length b)) (pack_segments wr segs)
+         | _, _ -> "_")
+    | _ -> failwith "c11.packs args");
+  (* bytes of the bloom filter of a column written column-wise from the chunks exact.declared.delivered *)
+  register "c11.packfilter" (function
+    | [bits; chunks] -> hex_of_n (pack_filter_bytes (n_of_hex bits) (List.map seg_chunk_of (split_on ',' chunks)))
+    | _ -> failwith "c11.packfilter args");
+  register "c11.rgfilter" (function
+    | [bits; rep; rows; maxrows; chunk] ->
+        hex_of_n (rowgroup_filter_bytes (n_of_hex bits) (bool_of_tok rep) (n_of_hex rows) (n_of_hex maxrows) (seg_chunk_of chunk))
+    | _ -> failwith "c11.rgfilter args");
   register "c11.column" (function
     | [c] -> tok_of_bool (column_copyable (col_of c))
     | _ -> failwith "c11.column args");
